@@ -83,7 +83,8 @@ POOLS = {
         "s2": ["s2", "x=1, y=[2]", "'single'", "semi;colon", "%% @en", "\\\\server\\share", "q\"\"\"q"],
         "e": [""],
         # quoting hazards: multi-line AND quotes, trailing quote / backslash, lone specials
-        "nq": ['l1\nl2"', 'a\n"""b', '"', "\\", "ends\\", 'x\n\\"y\n', "<b>&amp;</b>", 'tab\t"q"', "''' '"],
+        "nq": ['l1\nl2"', 'a\n"""b', '"', "\\", "ends\\", 'x\n\\"y\n', "<b>&amp;</b>", 'tab\t"q"', "''' '",
+               "a<b & c>", "<i>x</i>", "R&D <tag/>"],
     },
     "int": {"0": [0], "1": [1], "7": [7, -1, 2 ** 31, 2 ** 70, -(2 ** 63), 12345678901234567890]},
     "float": {"0": [0.0], "1": [1.0],
@@ -136,6 +137,13 @@ class Vocab(object):
     def token(self, kind, v):
         t = self.rev.get(self._key(kind, v))
         return t if t is not None else "?" + repr(v)
+
+    def token_ws(self, text):
+        """String token whose representative equals `text` up to white space (HTML-like
+        labels collapse it); ["?..."] when there is none.  Returns the list of all such tokens."""
+        squash = lambda x: "".join(x.split()).replace("\\", "")
+        hits = [tok for (kind, tok), v in self.rep.items() if kind == "str" and squash(v) == squash(text)]
+        return hits or ["?" + repr(text)]
 
     def iso_token(self, s):
         return self.rev.get(("isostr", s))
